@@ -30,6 +30,17 @@ ASSUMPTIONS = [
     "element-wise real functions; the unit parser is bypassed (operands are built from exponent dicts, or from text "
     "only when the parsed dict equals the intended one)",
     "Fraction.rebase (in-place normalisation of stored exponents) is value preserving; exponents are compared as rationals",
+    "a genuinely fractional power of a negative value is not a real number (the code raises for scalars, gives nan in arrays): "
+    "not generated; integer-valued exponents in every spelling ((2,1), (4,2), Fraction(4,2), 2.0, np.float64) are judged for "
+    "values of either sign and must agree with the int spelling",
+    "order: impl vs model compares units() text and the exponent dict in insertion order (Python dicts are ordered, the model "
+    "mirrors every insertion: left operand's keys first, new keys appended; for a dimension list the DIMENSION_LIST order, "
+    "re-read from the live table); impl vs specification compares exponent maps as maps (the property does not speak about order)",
+    "errors (impl vs model) are compared up to 1e-9 relative or 1e-11 x |value| (they are differences/sums of numbers of the size "
+    "of the value); a non-finite or raised (ZeroDivision/Overflow) result is a violation only if the model's result, its base "
+    "value and every unit factor are finite and inside 1e-250..1e250, otherwise it is counted as float overflow and not judged",
+    "every unit list names a unit id once (they become Python dicts); Unit().x / text targets are used only when the unit "
+    "parser (C03) reads them as the intended units",
 ]
 EXPLANATION = ("theorems over the reals (positive unit factors): base value of sum/difference/product/quotient/negation/"
                "power, exponent algebra, folding when dimensions vanish, refusal for different dimensions; the model is "
@@ -346,8 +357,10 @@ def compare_model(imp, mod, scale=None):
         return "" if imp == mod else "impl %s model %s" % (str(imp)[:80], str(mod)[:80])
     if not close(imp["v"], mod["v"], scale):
         return "value impl %s model %s" % (imp["v"], mod["v"])
-    es = None if scale is None else max(mag(imp["e"]), scale * 1e-3)
-    if not close(imp["e"], mod["e"], es, 1e-7 if scale else TOL):
+    # errors are obtained as differences / sums of numbers of the size of the value: compared up to 1e-11 x |value|
+    # (and 1e-9 relative); for sums and differences relative to the operands' size
+    es = max(mag(imp["v"]), mag(mod["v"])) * 1e-2 if scale is None else max(mag(imp["e"]), scale * 1e-3)
+    if not close(imp["e"], mod["e"], es, 1e-9 if scale is None else 1e-7):
         return "error impl %s model %s" % (imp["e"], mod["e"])
     if imp["units"] != mod["units"]:
         return "units impl %r model %r" % (imp["units"], mod["units"])
@@ -387,6 +400,23 @@ def run_impl(case):
     """Builds fresh operands, snapshots their state, applies the operation on the real class."""
     op = case["op"]
     import numpy as np
+    if op == "newq":
+        # Quantity(value, ref, abse): the unit is itself a quantity (exact or uncertain)
+        from scinumtools.units import Quantity
+        ref, _ = build("dict", case["rv"], case.get("re"), case["ru"])
+        rs = state(ref)
+        req = {"k": "qty", "op": "newq", "r": rs,
+               "l": {"v": fl(np.array(case["lv"], dtype=float)) if isinstance(case["lv"], list) else float(case["lv"]),
+                     "e": case.get("le"), "u": []}}
+        req["env"] = env_rows([u[0] for u in rs["u"]])
+        try:
+            q = Quantity(list(case["lv"]) if isinstance(case["lv"], list) else case["lv"], ref, abse=case.get("le"))
+            imp = mark_nonfinite(observe(q))
+        except (ZeroDivisionError, OverflowError, FloatingPointError):
+            imp = "nonfinite"
+        except Exception:
+            imp = "err"
+        return req, imp
     if op == "new":
         # the constructor itself: the model gets the arguments, the real object is the result
         req = {"k": "qty", "op": "new",
@@ -478,11 +508,15 @@ def run_impl(case):
             elif op == "pow_pair":
                 res = lo ** (n, d)
                 req["p"] = [n, d]
+            elif op == "pow_frac":
+                from scinumtools.units import Fraction as SFraction
+                req["p"] = [n, d]
+                res = lo ** SFraction(n, d)
             else:
                 x = n / d
                 req["p"] = float_to_frac(x)
                 req["p_intended"] = [n, d]
-                res = lo ** x
+                res = lo ** (np.float64(x) if case.get("npfloat") else x)
         else:
             raise ValueError(op)
         imp = mark_nonfinite(observe(res))
@@ -492,7 +526,7 @@ def run_impl(case):
         imp = "err"
     if op.startswith("pow") and "p" not in req:
         n, d = case["p"]
-        req["p"] = [n, 1] if op == "pow_int" else ([n, d] if op == "pow_pair" else float_to_frac(n / d))
+        req["p"] = [n, 1] if op == "pow_int" else ([n, d] if op in ("pow_pair", "pow_frac") else float_to_frac(n / d))
     return req, imp
 
 
@@ -635,19 +669,27 @@ def _gen_case(rng):
     elif r < 0.90:
         return gen_typed_case(rng)
     else:                                          # powers
-        kind = rng.choice(["pow_int", "pow_pair", "pow_float", "pow_float"])
-        d = 1 if kind == "pow_int" else rng.choice([1, 2, 2, 3, 4, 5, 6])
-        n = rng.choice([-3, -2, -1, 1, 2, 3, 5, 0]) if rng.random() < 0.9 else rng.choice([-7, 7, 4])
-        if kind == "pow_pair" and rng.random() < 0.03:
-            d = 0
+        kind = rng.choice(["pow_int", "pow_pair", "pow_float", "pow_float", "pow_frac"])
+        if kind != "pow_int" and rng.random() < 0.4:
+            # an integer-valued exponent in a non-int spelling ((2,1), (4,2), Fraction(4,2), 2.0): any sign of the value
+            m, k = rng.choice([2, -2, 3, -1, 4, -3, 5, 2, -2]), rng.choice([1, 1, 2, 3])
+            n, d = m * k, k
+        else:
+            d = 1 if kind == "pow_int" else rng.choice([1, 2, 2, 3, 4, 5, 6])
+            n = rng.choice([-3, -2, -1, 1, 2, 3, 5, 0]) if rng.random() < 0.9 else rng.choice([-7, 7, 4])
+            if kind == "pow_pair" and rng.random() < 0.03:
+                d = 0
         frac = d not in (0, 1) and n % d != 0
-        v = gen_value(rng, positive=frac or n < 0 or kind != "pow_int", nonzero=True)
+        # a genuinely fractional power of a negative number is not a real number (the code raises / gives nan): not generated
+        v = gen_value(rng, positive=frac or d == 0, nonzero=True)
         c = {"op": kind, "lv": v, "lu": gen_units(rng, 2), "p": [n, d]}
+        if kind == "pow_float" and rng.random() < 0.3:
+            c["npfloat"] = True
     c["mode"] = mode
     c["le"] = gen_err(rng, c["lv"]) if c.get("lu") is not None else None
     if "rv" in c:
         c["re"] = gen_err(rng, c["rv"]) if c.get("ru") is not None else None
-    if "rv" in c and not c.get("plain") and c.get("lu") is not None and rng.random() < 0.08:
+    if "rv" in c and not c.get("plain") and c.get("lu") is not None and c["op"] != "newq" and rng.random() < 0.08:
         # a op a : the same object on both sides
         if c["op"] == "div" and (c["lv"] == 0 or (isinstance(c["lv"], list) and 0 in c["lv"])):
             c["lv"] = 2.0
@@ -705,7 +747,20 @@ def gen_typed_case(rng):
 
 
 def gen_ctor(rng):
-    """Quantity(value, units): mostly unit expressions whose dimensions cancel with a factor != 1"""
+    """Quantity(value, units): mostly unit expressions whose dimensions cancel with a factor != 1;
+    Quantity(value, ref): the unit given as a quantity"""
+    if rng.random() < 0.35:
+        ru = gen_units(rng, 2)
+        if rng.random() < 0.3:
+            inv = [(f, (-e[0], e[1])) for f, e in (variant(rng, ru) or ru)]
+            seen = {uid(*f) for f, _ in ru}
+            for f, e in inv:
+                if uid(*f) not in seen:
+                    seen.add(uid(*f))
+                    ru.append((f, e))
+        lv = gen_value(rng)
+        rv = gen_value(rng, nonzero=True, arrays=not isinstance(lv, list) and rng.random() < 0.3)
+        return {"op": "newq", "lv": lv, "lu": [], "rv": rv, "ru": ru}
     lu = gen_units(rng, 2)
     if rng.random() < 0.8:
         inv = [(f, (-e[0], e[1])) for f, e in (variant(rng, lu) or lu)]
@@ -737,6 +792,13 @@ CORPUS = [
     {"op": "pow_float", "lv": 9.0, "lu": U(("k", "m", 2, 1), ("", "s", -1, 1)), "p": [1, 3]},
     {"op": "pow_int", "lv": -2.0, "lu": U(("c", "m", 1, 2)), "p": [2, 1]},
     {"op": "pow_pair", "lv": 2.0, "lu": U(("", "m", 1, 1)), "p": [1, 0]},
+    {"op": "pow_pair", "lv": -3.0, "lu": U(("k", "m", 1, 1)), "p": [2, 1]},
+    {"op": "pow_pair", "lv": -3.0, "lu": U(("k", "m", 1, 1)), "p": [4, 2]},
+    {"op": "pow_frac", "lv": -3.0, "lu": U(("k", "m", 1, 1)), "p": [4, 2]},
+    {"op": "pow_float", "lv": -3.0, "lu": U(("k", "m", 1, 1)), "p": [2, 1]},
+    {"op": "pow_float", "lv": [-2.0, 4.0, -5.0], "lu": U(("c", "m", 1, 1), ("", "s", -1, 1)), "p": [-2, 1], "npfloat": True},
+    {"op": "pow_pair", "lv": [-2.0, 4.0, -5.0], "lu": U(("c", "m", 1, 1), ("", "s", -1, 1)), "p": [-4, 2]},
+    {"op": "pow_frac", "lv": -2.0, "lu": U(("", "s", 1, 2)), "p": [9, 3]},
     # mixed prefixes that must cancel
     {"op": "mul", "lv": 3.0, "lu": U(("k", "m", 1, 1)), "rv": 2.0, "ru": U(("", "m", -1, 1))},
     {"op": "div", "lv": 3.0, "lu": U(("k", "m", 1, 1)), "rv": 2.0, "ru": U(("c", "m", 1, 1))},
@@ -771,6 +833,10 @@ CORPUS = [
     # constructor with units whose dimensions cancel
     {"op": "new", "lv": 4.0, "lu": U(("c", "m", 1, 1), ("", "m", -1, 1)), "le": 0.1},
     {"op": "new", "lv": 3.0, "lu": U(("k", "Hz", 1, 1), ("", "s", 1, 1), ("", "%", 1, 1))},
+    {"op": "newq", "lv": 4.0, "lu": [], "le": 0.2, "rv": 2.5, "ru": U(("c", "m", 1, 1)), "re": 0.1},
+    {"op": "newq", "lv": -3.0, "lu": [], "rv": 2.5, "ru": U(("c", "m", 1, 1)), "re": 0.1},
+    {"op": "newq", "lv": [1.0, 2.0], "lu": [], "le": 0.1, "rv": 2.0, "ru": U(("k", "m", 1, 1), ("", "m", -1, 1))},
+    {"op": "newq", "lv": 123e2, "lu": [], "rv": 2.0, "ru": U(("", "m", 1, 1))},
 ]
 
 
@@ -861,6 +927,9 @@ def describe(case):
     s = one(case["lv"], case.get("lu"), case.get("le"), case.get("ldtype"), case.get("lform"))
     if case.get("poke"):
         s += " [caller's array modified after construction]"
+    if case["op"] == "newq":
+        return "Quantity(%s, unit=Quantity(%s))" % (repr(case["lv"]) + ("" if case.get("le") is None else "±%g" % case["le"]),
+                                                   one(case["rv"], case.get("ru"), case.get("re")))
     if case.get("same"):
         s += " , the same object"
     elif "rv" in case:
@@ -874,6 +943,8 @@ def nontrivial(case):
     lu, ru = case.get("lu"), case.get("ru")
     if case["op"].startswith("pow"):
         return case["p"][1] not in (0, 1) or bool(lu)
+    if case["op"] == "newq":
+        return bool(ru)
     if case.get("same") or case["op"] == "new":
         return bool(lu)
     if lu and ru:
